@@ -595,7 +595,8 @@ class AttributeCollection(MutableMapping[int, Attribute]):
         if len2 < len4:
             as_seq = as2path.as_seq
         else:
-            as_seq = as2path.as_seq[:-len4]
+            # not [:-len4]: with len4 == 0 that is [:0], which is empty
+            as_seq = as2path.as_seq[: len2 - len4]
             as_seq.extend(as4path.as_seq)
 
         len2 = len(as2path.as_set)
@@ -604,7 +605,7 @@ class AttributeCollection(MutableMapping[int, Attribute]):
         if len2 < len4:
             as_set = as4path.as_set
         else:
-            as_set = as2path.as_set[:-len4]
+            as_set = as2path.as_set[: len2 - len4]
             as_set.extend(as4path.as_set)
 
         # Build segments from merged ASN lists
